@@ -46,7 +46,7 @@ def plan(tier):
     base = {"case_time_limit": 600,
             "required_classes": ["method:1site", "method:2site", "solver:direct", "solver:iterative", "nroots:1",
                                  "nroots:2", "nroots:3", "nroots:4", "omega", "stacked", "complex-H", "qn:none",
-                                 "qn:one", "qn:two", "schedule:truncating-then-full", "inverse:-1", "model:holstein",
+                                 "qn:one", "qn:two", "schedule:truncating-then-full", "schedule:full-perturbed-to-the-end", "inverse:-1", "model:holstein",
                                  "model:xxz", "model:generic", "model:qc", "ofs", "equality-checked:direct",
                                  "equality-checked:iterative-converged", "equality-checked:sweep-energy",
                                  "equality-checked:returned-eigenstate", "state-consistency-checked", "davidson-kernel",
@@ -368,6 +368,13 @@ def make_schedule(rng, ranks, dim, want_equality, big=False):
     def pct():
         return float(rng.choice([0.0, 0.1, 0.2, 0.4, 0.5]))
 
+    import os as _os
+    if rng.random() < (1.0 if _os.environ.get('C08_FORCE_PERTURBED') else 0.2):
+        # unlimited bonds but a perturbation up to the very last sweep (the returned state is assembled with it):
+        # nothing is discarded, so the returned state must still be the eigenvector of the last local problem
+        p = float(rng.choice([0.5, 0.8, 0.8]))
+        proc = [[HUGE if rng.random() < 0.5 else int(dim), p] for _ in range(int(rng.integers(3, 6)))]
+        return proc, "full-perturbed-to-the-end"
     if want_equality or r < 0.5:
         ntr = int(rng.integers(1, 4)) if rmax > 1 and rng.random() < 0.75 else 0
         # truncating sweeps mostly carry a perturbation (the optimiser tests convergence only after percent == 0 sweeps)
